@@ -424,8 +424,8 @@ def explore(ctx):
             p = mk(PeepPass, arg)
             sts = []
             st = p.new(path, None)
-            while st is not None and len(sts) < (40 if ctx.quick() and len(text) > 8 else 1000):
-                if len(text) <= 8 or rnd.random() < (0.15 if ctx.quick() else 0.5):
+            while st is not None and len(sts) < (40 if ctx.quick() and len(text) > (24 if arg in 'ac' else 8) else 1500):
+                if len(text) <= (24 if arg in 'ac' else 8) or rnd.random() < (0.15 if ctx.quick() else 0.5):
                     sts.append(st)
                 st = p.advance(path, st)
             for st in sts:
